@@ -178,11 +178,15 @@ def run_raw_script(srv, script):
             name = rq["p"].rsplit("/", 1)[1] or "x.ics"
             ct = rq.get("ct")
             body = real_body(name, rq["tok"].encode("latin-1"), ct)
+        elif "body" in rq:  # the bytes as they are (latin-1 text)
+            body, ct = rq["body"].encode("latin-1"), rq.get("ct")
         else:
             body, ct = b"", rq.get("ct")
         r = srv.request(rq["m"], rq["p"], body, ct, headers)
         b = r["body"]
-        if rq["m"] == "GET" and r["status"].startswith("200") and not rq["p"].endswith("/"):
+        if rq.get("full"):
+            pass  # the answer's bytes as they are
+        elif rq["m"] == "GET" and r["status"].startswith("200") and not rq["p"].endswith("/"):
             b = b"TOKEN:" + token_of(rq["p"].rsplit("/", 1)[1], b)
         if r["status"].startswith("500"):
             b = b""
